@@ -445,7 +445,7 @@ Proof.
     pose proof Hko as (Hvs & kd & Hh & Hc).
     assert (Hz : clen c = zlen ks0) by (rewrite <- (to_list_len _ _ Hl), Hvs; apply zlen_map).
     exists ks0. split.
-    + rewrite Hz, <- (gather_all ks0) at 2. apply mapM_ext_in. intros i Hi. apply iota_In' in Hi.
+    + rewrite Hz. transitivity (mapM (get ks0) (iota (zlen ks0))); [|apply gather_all]. apply mapM_ext_in. intros i Hi. apply iota_In' in Hi.
       destruct (i <? 0) eqn:E; [lia|reflexivity].
     + split; [exact Hvs|]. exists kd. rewrite leaf_dtype_Unmasked. split; assumption.
   - discriminate.
